@@ -157,9 +157,10 @@ pub fn one_history(id: u64, seed: u64, max_ops: usize, big: bool) {
     };
     let cap = w.verif_state().cap;
     trace::rec(json!({"ev":"reset","kind":"writer","id":id,"cap":cap,"sink_fails":fails}));
-    let mut pos: usize = 0; // pattern position: byte i of the written stream is (i*7+1) mod 251
+    let mut pos: usize = 0; // pattern position: the bytes handed to write calls are a function of their stream position
     let mut gen_data = |n: usize, pos: &mut usize| -> Vec<u8> {
-        let v: Vec<u8> = (0..n).map(|i| (((*pos + i) * 7 + 1) % 251) as u8).collect();
+        // position-determined, aperiodic content: a duplicated or displaced range does not look like the right one
+        let v: Vec<u8> = (0..n).map(|i| { let x = (*pos + i) as u64; ((x.wrapping_mul(0x9E37_79B9_7F4A_7C15) >> 29) ^ x) as u8 }).collect();
         *pos += n;
         v
     };
